@@ -23,6 +23,7 @@ import (
 	"example.com/scion-time/core/server"
 	"example.com/scion-time/core/timebase"
 	"example.com/scion-time/driver/clocks"
+	"example.com/scion-time/net/csptp"
 	"example.com/scion-time/net/ntske"
 	"example.com/scion-time/net/udp"
 
@@ -49,6 +50,11 @@ func (h *fwdHandler) Handle(_ context.Context, rec slog.Record) error {
 	rec.Attrs(func(a slog.Attr) bool {
 		if a.Key == "from" {
 			sb.WriteString(" from=" + a.Value.String())
+		}
+		if a.Key == "reqmsg" {
+			if m, ok := a.Value.Any().(*csptp.Message); ok {
+				sb.WriteString(fmt.Sprintf(" seq=%d", m.SequenceID))
+			}
 		}
 		return true
 	})
@@ -243,6 +249,12 @@ func (t *Target) Dump() string {
 
 func (t *Target) Stderr() string { return tailStr(t.stderr.String(), 12000) }
 
+// DumpFull is Dump without truncation (for counting goroutines).
+func (t *Target) DumpFull() string {
+	t.Dump()
+	return t.stderr.String()
+}
+
 func (t *Target) Kill() {
 	if t.cmd.Process != nil {
 		_ = t.cmd.Process.Kill()
@@ -261,7 +273,7 @@ func (t *Target) ExitInfo() (first, frame string) {
 		}
 		if first != "" && frame == "" && strings.HasPrefix(ln, "example.com/scion-time/") {
 			frame = strings.TrimSpace(ln)
-			if i := strings.Index(frame, "("); i > 0 {
+			if i := strings.LastIndex(frame, "("); i > 0 {
 				frame = frame[:i]
 			}
 		}
